@@ -38,7 +38,8 @@ CHECKS = {
             "RemGen.tla models CounterRemover listeners (triggers left = max(n,1), detached before their last run) and ConditionalRemover listeners "
             "(scripted condition per trigger), registered through the append, prepend and insert-before forms, under direct, nested (re-dispatch "
             "from the wrapped listener) and queued triggers; the cover runs on the real helpers (created as temporaries) over EventQueue and "
-            "CallbackList worlds; TraceDQ.tla demands exactly the promised invocations.",
+            "CallbackList worlds; TraceDQ.tla demands exactly the promised invocations. HetGen.tla / TraceHet.tla cover the heterogeneous targets "
+            "(HeterCallbackList, HeterEventDispatcher, HeterEventQueue: counts incl. zero and negative, direct and queued triggers).",
             "TLA+ model checking (TLC) of the reference model + transition-cover replay + TLC trace validation"),
     "C17": (MC, "7/C17", "seq",
             "AnyData.tla is the reference model of boxes (holds / moved-from, value, chain of moves, queue round trip) with the ledger 'every held "
@@ -103,7 +104,10 @@ CHECKS = {
     "C12": (MC, "7/C12", "seq",
             "DQImpl.tla with MixinFilter (filters as a snapshot list, scripted verdicts and argument rewrites, add/remove from inside filters and "
             "listeners) model-checked and covered; executions of the real dispatcher/queue with MixinFilter in by-value / const& / & prototypes are "
-            "validated by TraceDQ.tla: filter order, value flow through one cell per dispatch, first false stops that dispatch only, direct = queued.",
+            "validated by TraceDQ.tla: filter order, value flow through one cell per dispatch, first false stops that dispatch only, direct = queued. "
+            "Worlds with several mixins (a hook-less mixin before MixinFilter; a second hooked mixin after / before it) bind the mixin-hook phase of the "
+            "specification; listeners wrapped by conditionalFunctor / argumentAdapter and a canContinueInvoking policy have their own model; HetGen.tla / "
+            "TraceHet.tla do the same for MixinHeterFilter on a heterogeneous dispatcher (filters per prototype, scripted pass / rewrite / reject).",
             "TLA+ model checking (TLC) + transition-cover replay + TLC trace validation"),
     "C13": (MC, "7/C13", "seq",
             "DQImpl.tla with Ordered=TRUE (stable sort after every splice) model-checked for all key sequences with duplicates and all C05 "
